@@ -120,6 +120,8 @@ type Config struct {
 	UploadDir   string     `json:"upload_dir,omitempty"`
 	KeepFiles   string     `json:"keep_files,omitempty"`
 	ForceReqVar bool       `json:"force_req_var,omitempty"`
+	// BodyProcessors adds the two rules that select the JSON / XML body processors by content type
+	BodyProcessors bool `json:"body_processors,omitempty"`
 }
 
 const dumpRuleID = 9990
@@ -167,6 +169,11 @@ func (c *Config) Text() string {
 	}
 	if c.ForceReqVar {
 		sb.WriteString("SecAction \"id:9980,phase:1,pass,nolog,ctl:forceRequestBodyVariable=On\"\n")
+	}
+	if c.BodyProcessors {
+		// JSON and XML bodies are only parsed when a rule selects the processor
+		sb.WriteString("SecRule REQUEST_HEADERS:Content-Type \"@contains json\" \"id:9981,phase:1,pass,nolog,ctl:requestBodyProcessor=JSON\"\n")
+		sb.WriteString("SecRule REQUEST_HEADERS:Content-Type \"@contains xml\" \"id:9982,phase:1,pass,nolog,ctl:requestBodyProcessor=XML\"\n")
 	}
 	for i := range c.Rules {
 		c.Rules[i].render(&sb, false)
@@ -220,7 +227,7 @@ var (
 	hdrNames   = []string{"X-A", "x-a", "X-B", "User-Agent", "X-Tok"}
 	transPool  = []string{"lowercase", "uppercase", "urlDecode", "trim", "removeWhitespace", "length", "hexEncode", "base64Encode", "compressWhitespace", "none", "sha1", "removeNulls"}
 	reqVars    = []string{"ARGS", "ARGS_GET", "ARGS_POST", "ARGS_NAMES", "ARGS_GET_NAMES", "ARGS_POST_NAMES", "REQUEST_HEADERS", "REQUEST_HEADERS_NAMES", "REQUEST_COOKIES", "REQUEST_COOKIES_NAMES", "REQUEST_URI", "QUERY_STRING", "REQUEST_METHOD"}
-	bodyVars   = []string{"ARGS_POST", "ARGS", "REQUEST_BODY", "FILES", "FILES_NAMES", "FILES_SIZES", "MULTIPART_PART_HEADERS", "ARGS_NAMES", "FILES_COMBINED_SIZE"}
+	bodyVars   = []string{"ARGS_POST", "ARGS", "REQUEST_BODY", "FILES", "FILES_NAMES", "FILES_SIZES", "MULTIPART_PART_HEADERS", "ARGS_NAMES", "FILES_COMBINED_SIZE", "XML:/*", "REQBODY_ERROR", "REQBODY_PROCESSOR"}
 	respVars   = []string{"RESPONSE_HEADERS", "RESPONSE_STATUS", "RESPONSE_HEADERS_NAMES", "RESPONSE_CONTENT_TYPE"}
 	dynVars    = []string{"MATCHED_VAR", "MATCHED_VARS", "MATCHED_VAR_NAME", "MATCHED_VARS_NAMES", "TX", "RULE"}
 	keyedVars  = map[string]bool{"ARGS": true, "ARGS_GET": true, "ARGS_POST": true, "REQUEST_HEADERS": true, "REQUEST_COOKIES": true, "RESPONSE_HEADERS": true, "TX": true, "ARGS_NAMES": true, "ARGS_GET_NAMES": true, "ARGS_POST_NAMES": true, "MATCHED_VARS": true, "FILES_SIZES": true, "MULTIPART_PART_HEADERS": true}
@@ -396,6 +403,7 @@ func genConfig(t *verifrt.Tape, o *genOpts) *Config {
 	c.ReqAccess = t.Draw(4) != 0
 	c.RespAccess = o.Response && t.Draw(2) == 0
 	c.ForceReqVar = t.Draw(3) == 0
+	c.BodyProcessors = t.Draw(3) != 0
 	n := 1 + t.Draw(o.MaxRules)
 	for i := 0; i < n; i++ {
 		c.Rules = append(c.Rules, genRule(t, o, 101+i, 0))
@@ -471,7 +479,7 @@ func genScript(t *verifrt.Tape, o *reqOpts, id string) *TxScript {
 			kinds = append(kinds, "multipart", "multipart")
 		}
 		if o.JSON {
-			kinds = append(kinds, "json")
+			kinds = append(kinds, "json", "xml")
 		}
 		s.BodyKind = pick(t, kinds)
 		switch s.BodyKind {
@@ -484,6 +492,9 @@ func genScript(t *verifrt.Tape, o *reqOpts, id string) *TxScript {
 		case "json":
 			s.Body = []byte(pick(t, []string{`{"a":1,"A":2}`, `{"a":{"b":[1,2,"x"]},"c":"tok1"}`, `[1,2,3]`, `{"a":"evil","b":"foo"}`, `{"bad":`}))
 			s.ContentType = "application/json"
+		case "xml":
+			s.Body = []byte(pick(t, []string{`<a><b x="tok1">evil</b><c>1</c></a>`, `<?xml version="1.0"?><r><i>foo</i><i>Bar</i></r>`, `<a><b>unclosed`, `<a attr="1">` + strings.Repeat("x", 40) + `</a>`}))
+			s.ContentType = "text/xml"
 		case "multipart":
 			np := 1 + t.Draw(4)
 			for i := 0; i < np; i++ {
